@@ -32,5 +32,5 @@ func To(t time.Time) *tspb.Timestamp {
 
 // From translates a protobuf Timestamp message to a Golang Time object.
 func From(t *tspb.Timestamp) time.Time {
-	return time.Unix(t.Seconds, int64(t.Nanos))
+	return time.Unix(t.GetSeconds(), int64(t.GetNanos()))
 }
